@@ -60,6 +60,15 @@ CLAIMS = {
  "C17": ("other", "DESIGN.md §3 C17", "origin-term idiom matching, big-endian sweep recognition (induction + byte-lane pattern), sibling agreement, path enumeration",
    "Constant arguments of the parsers, the three 8-byte writers as one descending complete big-endian sweep that agree with each other, right-padding of the decimal question to 256 hex digits, left-padding of timestamps to 16, both paths of LeftPadHex, and the position-wise mapping and error propagation of the five hex fields.",
    "Numeric identity beyond the enumerated idioms and RFC end-to-end equality (C05) are not decided."),
+ "C18": ("other", "DESIGN.md §3 C18", "route-table extraction + per-endpoint field mapping by JSON tag over origin terms; string-switch tables; write-effect statelessness of the service layer",
+   "The path switch maps the ten documented routes to ten distinct handlers that call exactly the documented library operation behind their method gate; per endpoint every library argument and parameter-struct field is the documented request field (by JSON tag) through the documented transform, no undocumented field is set, the response field is the library's result; fall-back tables are as documented; requests are decoded into per-request locals and the service layer keeps no state (no package variables written, no pooled request objects, no locks).",
+   "HTTP framing, JSON decoding semantics and fasthttp's concurrency are trusted/not decided; swagger text is not compared."),
+ "C19": ("other", "DESIGN.md §3 C19", "loop-bound analysis over everything reachable from the handlers, middleware-chain structure, constant evaluation of server limits, error-branch → status dominance",
+   "Every loop reachable from the router is bounded by ≤ 2^24 via constants, gates or container lengths with request fields unconstrained (client windows ≤ 10), no quadratic string accumulation over request data; the served handler is Chain(…Recovery…)(routers) with Recovery = defer{recover→5xx}; the read/write timeouts and body limit are positive constants; every error test in every handler answers a constant 4xx/5xx through writeError and returns, success sets 200, unknown paths 404.",
+   "Actual latency, fasthttp internals and OS limits are not decided."),
+ "C20": ("other", "DESIGN.md §3 C20", "sibling cross-check in the js/wasm configuration: JS export-table tokens vs. SSA registrations; the native composition/window/compare rules applied to the binding; error-string classification",
+   "The JS package's export object binds each name to the registered global of the same name; the binding's derivation satisfies the native RFC 4226 composition rules (hash switch, key, counter encoding, shared truncation, digits gate, modulus table or a verified full-width 10^n, zero left-padding); both binding windows satisfy the native window rules and the js/wasm validator has the native comparison core; arguments reach their roles by parser name; every string returned to JS is 'error:'-prefixed or the operation's value.",
+   "Source-level only: syscall/js coercion, the Node runtime and the checked-in otp.wasm binary are not analysed."),
 }
 
 PENDING_REASON = "not claimed at this commit: the rule set planned in DESIGN.md §3 is not implemented yet (no check is registered, so nothing is asserted)"
